@@ -12,6 +12,7 @@ use nom::{
     Parser,
 };
 
+use super::common::keyword_pair;
 use super::{
     asn1_type, asn1_value,
     common::{
@@ -394,7 +395,7 @@ fn user_defined_constraint(input: Input<'_>) -> ParserResult<'_, SubtypeElements
 /// ```
 fn user_defined_constraint_real(input: Input<'_>) -> ParserResult<'_, UserDefinedConstraint> {
     skip_ws_and_comments(into(preceded(
-        tag(CONSTRAINED_BY),
+        keyword_pair(CONSTRAINED_BY),
         skip_ws_and_comments(delimited(
             char(LEFT_BRACE),
             take_until_unbalanced("{", "}"),
@@ -432,7 +433,7 @@ fn single_type_constraint(input: Input<'_>) -> ParserResult<'_, SubtypeElements>
     opt_delimited(
         skip_ws_and_comments(char(LEFT_PARENTHESIS)),
         skip_ws_and_comments(into(preceded(
-            tag(WITH_COMPONENT),
+            keyword_pair(WITH_COMPONENT),
             skip_ws_and_comments(map(constraints, SubtypeElements::SingleTypeConstraint)),
         ))),
         skip_ws_and_comments(char(RIGHT_PARENTHESIS)),
@@ -463,7 +464,7 @@ fn multiple_type_constraints(input: Input<'_>) -> ParserResult<'_, SubtypeElemen
     opt_delimited(
         skip_ws_and_comments(char(LEFT_PARENTHESIS)),
         skip_ws_and_comments(into(preceded(
-            tag(WITH_COMPONENTS),
+            keyword_pair(WITH_COMPONENTS),
             in_braces(pair(
                 opt(skip_ws_and_comments(terminated(
                     value(ExtensionMarker(), tag(ELLIPSIS)),
@@ -527,7 +528,7 @@ fn content_constraint(input: Input<'_>) -> ParserResult<'_, ContentConstraint> {
             map(
                 pair(
                     preceded(skip_ws_and_comments(tag(CONTAINING)), skip_ws(asn1_type)),
-                    preceded(skip_ws_and_comments(tag(ENCODED_BY)), skip_ws(asn1_value)),
+                    preceded(skip_ws_and_comments(keyword_pair(ENCODED_BY)), skip_ws(asn1_value)),
                 ),
                 |v| ContentConstraint::ContainingEncodedBy {
                     containing: v.0,
@@ -539,7 +540,7 @@ fn content_constraint(input: Input<'_>) -> ParserResult<'_, ContentConstraint> {
                 ContentConstraint::Containing,
             ),
             map(
-                preceded(skip_ws_and_comments(tag(ENCODED_BY)), skip_ws(asn1_value)),
+                preceded(skip_ws_and_comments(keyword_pair(ENCODED_BY)), skip_ws(asn1_value)),
                 ContentConstraint::EncodedBy,
             ),
         ))),
